@@ -1029,7 +1029,10 @@ def clear_config(clear_constants=False):
     saved_constants = _CONSTANTS.copy()
     _CONSTANTS.clear()  # Clear then redefine constants (re-adding bindings).
     for name, value in saved_constants.items():
-      constant(name, value)
+      # Re-insert directly: these names were validated when first defined, and
+      # `constant()` would reject e.g. 'b.X' after 'a.b.X' (both definable in
+      # interactive mode), aborting the clear half-way.
+      _CONSTANTS[name] = value
   _IMPORTS.clear()
   with _OPERATIVE_CONFIG_LOCK:
     _OPERATIVE_CONFIG.clear()
